@@ -328,7 +328,8 @@ C03_THEOREMS = ["Ctl.hAdjust_lands", "Ctl.hIter_success_at_xend", "Ctl.hLoop_suc
                 "Ctl.dop853Params_guard", "Ctl.hIter_cases", "Ctl.hSolve_protocol", "Ctl.rk23Adjust_lands", "Ctl.rk23Loop_success_at_xend", "Ctl.rk4Loop_success_at_xend", "RadauCtl.pass_land", "RadauCtl.run_success_at_xend", "RadauCtl.start_land", "BdfCtl.limits_spec", "BdfCtl.pass_land", "BdfCtl.run_success_at_xend", "BdfCtl.start_inv", "rowsum_rk4", "rowsum_rk23", "rowsum_dopri5", "rowsum_dop853",
                 "Ctl.c03_success_is_xend_hairer", "Ctl.rk23Loop_success_exact", "Ctl.rk4Loop_success_exact", "RadauCtl.run_success_exact",
                 "SolOutM.runMode2_forward", "SolOutM.outputMode2_forward", "SolOutM.outputMode2_initial",
-                "SolOutM.runMode2_backward", "SolOutM.outputMode2_backward", "RadauCtl.pass_rinv", "RadauCtl.run_rinv", "RadauCtl.start_rinv"]
+                "SolOutM.runMode2_backward", "SolOutM.outputMode2_backward", "RadauCtl.pass_rinv", "RadauCtl.run_rinv", "RadauCtl.start_rinv",
+                "Ctl.rk23_landing_stage_at_xend", "Ctl.rk4_landing_stage_at_xend"]
 
 
 def c03(c):
